@@ -2,6 +2,7 @@ package c13
 
 import (
 	"fmt"
+	"os"
 	"sort"
 
 	"github.com/NVIDIA/KAI-scheduler/pkg/scheduler/api/pod_info"
@@ -436,9 +437,80 @@ func sharedCluster(r *u.Rng) cycle.Cluster {
 	return c
 }
 
+// heteroCluster: nodes whose GPUs have different memory sizes, a few gpu-memory and fractional pods (running and
+// pending) so that queue usage stays below one GPU (Session.QueueAllocatedResources keeps whole GPUs only from 1 up)
+// and the accepted GPU portion of a gpu-memory pod / the device memory of a fraction depends on the node it is on.
+func heteroCluster(r *u.Rng) cycle.Cluster {
+	var c cycle.Cluster
+	mems := []int64{100, 200, 200}
+	u.Shuffle(r, mems)
+	nn := r.Range(2, 3)
+	nodeMem := map[string]int64{}
+	for i := 0; i < nn; i++ {
+		ns := core.NodeSpec{Name: fmt.Sprintf("n%d", i+1), Cpu: 16000, Mem: 64 << 30, Gpus: 2, Pods: 110, GpuMem: mems[i]}
+		c.Nodes = append(c.Nodes, ns)
+		nodeMem[ns.Name] = ns.GpuMem
+	}
+	c.Queues = []cycle.Queue{{Name: "q1", Deserved: 2, Limit: 0, OverQuota: 1, Priority: 100}}
+	if r.Bool() {
+		c.Queues = append(c.Queues, cycle.Queue{Name: "q2", Deserved: 1, Limit: 0, OverQuota: 1, Priority: 100})
+	}
+	budget := 875 // thousandths of a GPU the running pods may use in total
+	ng := map[string]int{}
+	nj := r.Range(2, 5)
+	for i := 0; i < nj; i++ {
+		j := cycle.Job{Name: fmt.Sprintf("j%d", i+1), Queue: u.Pick(r, c.Queues).Name, Priority: int32(u.Pick(r, []int{50, 75, 125})), MinMember: 1, AgeMinutes: r.Range(1, 50), StartedMins: r.Range(1, 120)}
+		p := core.PodSpec{Name: j.Name + "-0", Cpu: 250, Mem: 1 << 30, Status: pod_status.Pending}
+		if r.Chance(2, 3) {
+			p.GpuMemory = int64(u.Pick(r, []int{50, 50, 100}))
+		} else {
+			p.Fraction = u.Pick(r, []string{"0.25", "0.5"})
+		}
+		if r.Chance(3, 5) {
+			node := u.Pick(r, c.Nodes).Name
+			cost := 0
+			if p.GpuMemory > 0 {
+				cost = int(p.GpuMemory * 1000 / nodeMem[node])
+			} else {
+				cost = map[string]int{"0.25": 250, "0.5": 500}[p.Fraction]
+			}
+			if cost <= budget && ng[node] < 2 {
+				budget -= cost
+				ng[node]++
+				p.Node, p.Status = node, pod_status.Running
+				p.Groups = []string{fmt.Sprintf("%s-G%d", node, ng[node])}
+			}
+		}
+		j.Pods = []core.PodSpec{p}
+		c.Jobs = append(c.Jobs, j)
+	}
+	c.Actions = []string{"statement"}
+	return c
+}
+
 // ---- entry point ---------------------------------------------------------------------------------
 
+// probeConvertShift (C13_PROBE=convert-shift, run by hand): ConvertAllAllocatedToPipelined removes allocate entries
+// from the log without renumbering the undo entries behind them. Not issued by the actions (the allocate action
+// converts statements that hold no eviction), therefore outside wf and outside the generated streams: the commit
+// that follows sends an Evict for a pod whose eviction was undone and then recurses without end in operationValid.
+func probeConvertShift() {
+	run, pend := pod_status.Running, pod_status.Pending
+	c := base([]core.NodeSpec{node("n1", 4)}, job1("g", core.PodSpec{Gpus: 1, Status: pend}), job1("a", core.PodSpec{Gpus: 1, Status: run, Node: "n1"}))
+	w := newWorld(c, nil)
+	for _, cs := range []cmdSpec{{Kind: "allocate", Pod: "g-0", Node: "n1"}, {Kind: "evict", Pod: "a-0"}, {Kind: "unevict", Pod: "a-0"},
+		{Kind: "convert", Job: "g"}, {Kind: "commit"}} {
+		fmt.Printf("%s ...\n", cs.String())
+		failed, _, p := w.exec(cs)
+		fmt.Printf("  err=%v panic=%q calls=%v status(a-0)=%v\n", failed, p, w.fc.calls, w.pod("a-0").Status)
+	}
+}
+
 func Run(dir string, seed uint64, n int, tier string) error {
+	if os.Getenv("C13_PROBE") == "convert-shift" {
+		probeConvertShift()
+		return nil
+	}
 	out := u.NewOut(dir, "C13", "KaiV.Run.C13", "case", 12)
 	out.Flags = true
 	root := u.NewRng(seed)
@@ -469,9 +541,12 @@ func Run(dir string, seed uint64, n int, tier string) error {
 	for i := 0; i < n; i++ {
 		r := root.Fork(uint64(i))
 		var c cycle.Cluster
-		if r.Chance(1, 2) {
+		switch r.Intn(3) {
+		case 0:
 			c = sharedCluster(r)
-		} else {
+		case 1:
+			c = heteroCluster(r)
+		default:
 			c = cycle.Gen(r)
 			c.Actions = []string{"statement"}
 		}
